@@ -142,6 +142,8 @@ def check_at(m, f, rule, lenfield, index_arg='$1'):
     for b in f.blocks:
         for c in b.insts:
             if c.op == 'call' and c.x.get('noreturn'):
+                if c.srcfn == 'cstl_guarded_ptr_get_const':
+                    continue    # the stray-copy guard's own abort (C20) is not an index abort
                 facts = pv.facts_at(c)
                 if not any(('ule', L.ref, index_arg) in facts for L in lens):
                     bad.append('abort() at %s is reachable for an index below %s (not dominated by %s <= i)' % (c.loc(), lenfield, lenfield))
